@@ -145,6 +145,63 @@ Qed.
 Lemma StopFree_prefix stops p s : Prefix p s -> StopFree stops s -> StopFree stops p.
 Proof. intros Hp Hs t Hin Hinf. apply (Hs t Hin). eapply Infix_prefix; eassumption. Qed.
 
+
+(** ** position of the earliest stop *)
+Lemma index_of_intro s t a b :
+  s = a ++ t ++ b -> (forall a' b', s = a' ++ t ++ b' -> length a <= length a') ->
+  index_of s t = Some (length a).
+Proof.
+  intros Hs Hmin. destruct (index_of s t) as [k|] eqn:E.
+  - apply index_of_some in E as [a0 [b0 [Hs0 [-> Hmin0]]]].
+    f_equal. apply Nat.le_antisymm; [eapply Hmin0; exact Hs | eapply Hmin; exact Hs0].
+  - apply index_of_none in E. exfalso; apply E. exists a, b. exact Hs.
+Qed.
+
+Lemma index_of_clean_app F sq t :
+  t <> [] -> ~ Infix t F -> (forall u, u <> [] -> Suffix u F -> ~ Prefix u t) ->
+  index_of (F ++ sq) t = option_map (fun i => length F + i) (index_of sq t).
+Proof.
+  intros Ht HF HFs. destruct (index_of sq t) as [i|] eqn:E; cbn [option_map].
+  - apply index_of_some in E as [a0 [b0 [Hsq [-> Hmin]]]].
+    rewrite <- app_length. apply index_of_intro with (b := b0).
+    + rewrite Hsq, <- app_assoc. reflexivity.
+    + intros a' b' H. rewrite app_length.
+      apply app_eq_app in H as [l [[HFa Hl]|[Ha Hl]]].
+      * destruct l as [|c l].
+        -- cbn in Hl. rewrite app_nil_r in HFa. subst a'.
+           specialize (Hmin [] b' (eq_sym Hl)). cbn in Hmin. lia.
+        -- exfalso. apply app_eq_app in Hl as [l' [[Ht' Hb]|[Hl' Hb]]].
+           ++ apply (HFs (c :: l)); [discriminate | exists a'; exact HFa | exists l'; exact Ht'].
+           ++ apply HF. exists a', l'. rewrite HFa, Hl'. reflexivity.
+      * subst a'. rewrite app_length. specialize (Hmin l b' Hl). lia.
+  - apply index_of_none. apply index_of_none in E. intros Hinf.
+    apply Infix_app_cases in Hinf as [H|[H|[u [v [-> [Hu [Hv [Hsu Hpv]]]]]]]].
+    + exact (HF H).
+    + exact (E H).
+    + apply (HFs u Hu Hsu). apply Prefix_app_r.
+Qed.
+
+Definition EarliestStop (stops : list str) (g : str) (k : nat) : Prop :=
+  (exists t, In t stops /\ index_of g t = Some k) /\
+  forall t j, In t stops -> index_of g t = Some j -> k <= j.
+
+Lemma EarliestStop_shift stops F sq stop i :
+  (forall t, In t stops -> t <> []) ->
+  StopFree stops F -> NoStopSuffix stops F ->
+  In stop stops -> index_of sq stop = Some i ->
+  (forall s' j, In s' stops -> index_of sq s' = Some j -> i <= j) ->
+  EarliestStop stops (F ++ sq) (length F + i).
+Proof.
+  intros Hne HF HFs Hin Hi Hmin. split.
+  - exists stop. split; [exact Hin|].
+    rewrite index_of_clean_app; [rewrite Hi; reflexivity | exact (Hne _ Hin) | exact (HF _ Hin) |].
+    intros u Hu Hs. exact (HFs _ _ Hin Hu Hs).
+  - intros t j Hint Hj.
+    rewrite index_of_clean_app in Hj; [| exact (Hne _ Hint) | exact (HF _ Hint) | intros u Hu Hs; exact (HFs _ _ Hint Hu Hs)].
+    destruct (index_of sq t) as [j0|] eqn:E; cbn in Hj; [|discriminate].
+    inversion Hj; subst. specialize (Hmin _ _ Hint E). lia.
+Qed.
+
 (** ** trim_valid *)
 Lemma removelast_prefix (s : str) : Prefix (removelast s) s.
 Proof.
@@ -259,10 +316,17 @@ Section Run.
     StopFree stops (concat (pending s)) /\
     Forall (fun p => utf8_valid p = true) (out s).
 
-  (** what holds once the sequence has finished *)
+  (** the text that was due to be streamed: everything generated, or the part before the earliest stop *)
+  Definition Cut (s : st) (c : str) : Prop :=
+    (StopFree stops (gen s) /\ c = gen s) \/
+    (exists k, EarliestStop stops (gen s) k /\ c = firstn k (gen s)).
+
+  (** what holds once the sequence has finished: the output is the cut, less an invalid UTF-8 tail of the
+      part that was still pending *)
   Definition Finished (s : st) : Prop :=
-    pending s = [] /\ Prefix (output s) (gen s) /\ StopFree stops (output s) /\
-    Forall (fun p => utf8_valid p = true) (out s).
+    pending s = [] /\ StopFree stops (output s) /\
+    Forall (fun p => utf8_valid p = true) (out s) /\
+    exists F body, Cut s (F ++ body) /\ output s = F ++ trim_valid body.
 
   Definition Inv (s : st) : Prop :=
     match fin s with None => InvRunning s | Some _ => Finished s end.
@@ -278,20 +342,28 @@ Section Run.
 
   (** finishing from a state whose output is clean and whose pending text is stop-free *)
   Lemma finish_ok r pend o n g :
-    Prefix (concat o ++ concat pend) g ->
+    Cut (mkSt pend o n None g) (concat o ++ concat pend) ->
     StopFree stops (concat o) -> NoStopSuffix stops (concat o) ->
     StopFree stops (concat pend) ->
     Forall (fun p => utf8_valid p = true) o ->
     Finished (finish r (mkSt pend o n None g)).
   Proof.
-    intros Hg Ho Hos Hp Hv. unfold Finished, finish, flush, output. cbn.
+    intros Hg Ho Hos Hp Hv. unfold Finished, finish, flush, output. cbn [pending out npred fin gen].
     split; [reflexivity|]. rewrite output_emit.
-    split.
-    - eapply Prefix_trans; [|exact Hg]. destruct (trim_valid_prefix (concat pend)) as [r' Hr'].
-      exists r'. rewrite <- app_assoc. f_equal. exact Hr'.
-    - split.
-      + apply stopfree_app; try assumption. eapply StopFree_prefix; [apply trim_valid_prefix | exact Hp].
-      + apply emit_valid; [exact Hv | apply trim_valid_valid].
+    split; [|split].
+    - apply stopfree_app; try assumption. eapply StopFree_prefix; [apply trim_valid_prefix | exact Hp].
+    - apply emit_valid; [exact Hv | apply trim_valid_valid].
+    - exists (concat o), (concat pend). split; [exact Hg | reflexivity].
+  Qed.
+
+  Lemma Finished_prefix s : Finished s -> Prefix (output s) (gen s).
+  Proof.
+    intros [_ [_ [_ [F [body [Hc Ho]]]]]]. rewrite Ho.
+    assert (Hp : Prefix (F ++ trim_valid body) (F ++ body)).
+    { destruct (trim_valid_prefix body) as [r Hr]. exists r. rewrite <- app_assoc. f_equal. exact Hr. }
+    destruct Hc as [[_ Hc]|[k [_ Hc]]].
+    - rewrite <- Hc. exact Hp.
+    - eapply Prefix_trans; [exact Hp|]. rewrite Hc. apply Prefix_firstn.
   Qed.
 
   Lemma Inv_init : Inv init.
@@ -309,7 +381,7 @@ Section Run.
     intros [Hg [Ho [Hos [Hp Hv]]]]. unfold output in *. cbn [gen out pending] in *.
     destruct (at_limit limit (mkSt pend o n None g)).
     - intros _. change (Finished (finish RLength (mkSt pend o n None g))).
-      apply finish_ok; try assumption. rewrite Hg. apply Prefix_refl.
+      apply finish_ok; try assumption. left. cbn [gen]. split; [rewrite Hg; apply stopfree_app; assumption | symmetry; exact Hg].
     - destruct t as [p|].
       + cbn [pending out npred gen].
         destruct (find_stop (concat (pend ++ [p])) stops) as [stop|] eqn:Ef.
@@ -317,9 +389,12 @@ Section Run.
           apply find_stop_some in Ef as [i [Hin [Hi Hmin]]].
           change (Finished (finish RStop (mkSt (fst (truncate_stop (pend ++ [p]) stop)) o (S n) None (g ++ p)))).
           apply finish_ok; try assumption.
-          -- rewrite (truncate_stop_concat _ _ _ Hi). rewrite Hg.
-             destruct (Prefix_firstn i (concat (pend ++ [p]))) as [r Hr]. exists r.
-             rewrite <- !app_assoc. f_equal. rewrite <- Hr. symmetry. apply concat_snoc.
+          -- right. cbn [gen]. exists (length (concat o) + i). rewrite (truncate_stop_concat _ _ _ Hi).
+             assert (Hg' : g ++ p = concat o ++ concat (pend ++ [p])).
+             { rewrite Hg, concat_snoc, <- app_assoc. reflexivity. }
+             rewrite Hg'. split.
+             ++ apply EarliestStop_shift with (stop := stop); assumption.
+             ++ symmetry. apply firstn_app_2.
           -- rewrite (truncate_stop_concat _ _ _ Hi).
              intros t' Hin' Hinf.
              destruct (index_of (concat (pend ++ [p])) t') as [j|] eqn:Ej.
@@ -351,7 +426,7 @@ Section Run.
           -- intros t Hin [a [b H]]. destruct a; [|discriminate]. cbn in H. destruct t; [exact (stops_nonempty _ Hin eq_refl)|discriminate].
           -- apply emit_valid; assumption.
       + intros _. change (Finished (finish RStop (mkSt pend o (S n) None g))).
-        apply finish_ok; try assumption. rewrite Hg. apply Prefix_refl.
+        apply finish_ok; try assumption. left. cbn [gen]. split; [rewrite Hg; apply stopfree_app; assumption | symmetry; exact Hg].
   Qed.
 
   Lemma Inv_run_from ts : forall s, Inv s -> lossless_run s ts -> Inv (fold_left (step stops limit) ts s).
@@ -369,28 +444,28 @@ Section Run.
     intros H. unfold Inv in H. rewrite Ef in H. destruct H as [Hg [Ho [Hos [Hp Hv]]]].
     destruct s as [pend o n f g]. cbn in Ef; subst f.
     change (Finished (finish RLength (mkSt pend o n None g))).
-    unfold output in *; cbn in *. apply finish_ok; try assumption. rewrite Hg. apply Prefix_refl.
+    unfold output in *; cbn in *. apply finish_ok; try assumption. left. cbn [gen]. split; [rewrite Hg; apply stopfree_app; assumption | symmetry; exact Hg].
   Qed.
 
   (** consequences in the vocabulary of the property *)
   Lemma Inv_prefix s : Inv s -> Prefix (output s) (gen s).
   Proof.
     unfold Inv. destruct (fin s).
-    - intros [_ [H _]]. exact H.
+    - apply Finished_prefix.
     - intros [Hg _]. rewrite Hg. apply Prefix_app_r.
   Qed.
 
   Lemma Inv_stop_free s : Inv s -> StopFree stops (output s).
   Proof.
     unfold Inv. destruct (fin s).
-    - intros [_ [_ [H _]]]. exact H.
+    - intros [_ [H _]]. exact H.
     - intros [_ [H _]]. exact H.
   Qed.
 
   Lemma Inv_pieces_valid s : Inv s -> Forall (fun p => utf8_valid p = true) (out s).
   Proof.
     unfold Inv. destruct (fin s).
-    - intros [_ [_ [_ H]]]. exact H.
+    - intros [_ [_ [H _]]]. exact H.
     - intros [_ [_ [_ [_ H]]]]. exact H.
   Qed.
 
@@ -399,5 +474,60 @@ Section Run.
   Proof.
     unfold Inv. intros H Hf. rewrite Hf in H. destruct H as [Hg [Ho [Hos [Hp _]]]].
     rewrite Hg. apply stopfree_app; assumption.
+  Qed.
+
+  (** exactness: once finished, the output is the cut of the generated text (everything, or the part
+      before the earliest stop) except for an invalid UTF-8 tail of its last piece *)
+  Lemma Inv_finished_exact s : Inv s -> fin s <> None ->
+    exists F body, Cut s (F ++ body) /\ output s = F ++ trim_valid body.
+  Proof.
+    unfold Inv. destruct (fin s); [|congruence]. intros [_ [_ [_ H]]] _. exact H.
+  Qed.
+
+  (** ... and is the cut itself when the cut is valid UTF-8 up to the last flush and after it *)
+  Lemma Inv_finished_exact_valid s : Inv s -> fin s <> None ->
+    (forall F body, Cut s (F ++ body) -> output s = F ++ trim_valid body -> utf8_valid body = true) ->
+    exists c, Cut s c /\ output s = c.
+  Proof.
+    intros Hi Hf Hv. destruct (Inv_finished_exact s Hi Hf) as [F [body [Hc Ho]]].
+    exists (F ++ body). split; [exact Hc|]. rewrite Ho. f_equal. apply trim_valid_id. eapply Hv; eassumption.
+  Qed.
+
+  (** how a sequence can finish *)
+  Lemma step_finishes s t r :
+    fin s = None -> fin (step stops limit s t) = Some r ->
+    match r with
+    | RLength => at_limit limit s = true
+    | RStop => at_limit limit s = false /\
+               (t = EOS \/ exists p stop, t = Piece p /\ find_stop (concat (pending s ++ [p])) stops = Some stop)
+    end.
+  Proof.
+    unfold step. intros Hf. rewrite Hf. destruct (at_limit limit s) eqn:El.
+    - cbn. intros [= <-]. reflexivity.
+    - destruct t as [p|].
+      + destruct (find_stop (concat (pending s ++ [p])) stops) as [stop|] eqn:Ef.
+        * cbn. intros [= <-]. split; [reflexivity|]. right. exists p, stop. split; [reflexivity | exact Ef].
+        * destruct (contains_stop_suffix _ _); [cbn; discriminate|].
+          destruct (incomplete_unicode _); cbn; discriminate.
+      + cbn. intros [= <-]. split; [reflexivity|]. left; reflexivity.
+  Qed.
+
+  Lemma step_fin_sticky s t r : fin s = Some r -> step stops limit s t = s.
+  Proof. unfold step. intros ->. reflexivity. Qed.
+
+  Lemma run_finish_point ts : forall s r,
+    fin s = None -> fin (fold_left (step stops limit) ts s) = Some r ->
+    exists ts1 t ts2, ts = ts1 ++ t :: ts2 /\
+      fin (fold_left (step stops limit) ts1 s) = None /\
+      fin (step stops limit (fold_left (step stops limit) ts1 s) t) = Some r.
+  Proof.
+    induction ts as [|t ts IH]; intros s r Hs Hr; cbn in Hr; [congruence|].
+    destruct (fin (step stops limit s t)) as [r'|] eqn:E.
+    - exists [], t, ts. cbn. split; [reflexivity|]. split; [exact Hs|].
+      assert (Hst : forall l, fold_left (step stops limit) l (step stops limit s t) = step stops limit s t).
+      { induction l as [|x l IHl]; cbn; [reflexivity|]. rewrite (step_fin_sticky _ x r' E). exact IHl. }
+      rewrite Hst in Hr. congruence.
+    - destruct (IH _ _ E Hr) as [ts1 [t' [ts2 [-> [H1 H2]]]]].
+      exists (t :: ts1), t', ts2. cbn. auto.
   Qed.
 End Run.
